@@ -344,7 +344,9 @@ GENERIC_DESC = (
     "R-TERMINATION a while loop advancing by a caller-supplied step is reached only with the step known positive; "
     "R-INTIDX an index is told from a slice by isinstance(x, slice) or an integer test that covers numpy integers; "
     "R-ANNOT no unconditional assert isinstance() rejects a member of the parameter's own Union annotation; "
-    "R-PRECISION no single-precision coordinate arrays on the planning path (roi, geobox, overlap, gcp)"
+    "R-PRECISION no single-precision coordinate arrays on the planning path (roi, geobox, overlap, gcp); "
+    "R-SHAREDMUT no module-level container mutated / returned by a function, ad-hoc cache keys cover their value; R-ITERTWICE no Iterable parameter consumed twice; "
+    "R-EPSGPROXY no comparison of two .epsg attributes in place of CRS equality; R-ROTTOL is_affine_st never called with a constant tolerance looser than its default"
 )
 
 
@@ -373,7 +375,8 @@ def _with_generic(pid, fn):
         fn(prog, run, tier)
         run.add(findings.declared(prog, pid), "R-DECLARED findings recorded with a failing input but without a structural clause: printed for the record, not decided")
         mods = {m for m in ANCHORED.get(pid, set()) if m in prog.modules}
-        run.add(generic.rule_dup(prog, mods) + generic.rule_truthy(prog, mods) + generic.rule_abseps(prog, mods) + generic.rule_localmemo(prog, mods) + generic.rule_remainder_owner(prog, mods) + generic.rule_fallback(prog, mods) + generic.rule_isclose(prog, mods) + generic.rule_signed_magnitude(prog, mods) + generic.rule_zerodiv(prog, mods) + generic.rule_densify(prog, mods) + generic.rule_termination(prog, mods) + generic.rule_intidx(prog, mods) + generic.rule_assert_vs_annotation(prog, mods) + generic.rule_precision(prog, mods), GENERIC_DESC)
+        run.add(generic.rule_dup(prog, mods) + generic.rule_truthy(prog, mods) + generic.rule_abseps(prog, mods) + generic.rule_localmemo(prog, mods) + generic.rule_remainder_owner(prog, mods) + generic.rule_fallback(prog, mods) + generic.rule_isclose(prog, mods) + generic.rule_signed_magnitude(prog, mods) + generic.rule_zerodiv(prog, mods) + generic.rule_densify(prog, mods) + generic.rule_termination(prog, mods) + generic.rule_intidx(prog, mods) + generic.rule_assert_vs_annotation(prog, mods) + generic.rule_precision(prog, mods) + generic.rule_sharedmut(prog, mods) + generic.rule_itertwice(prog, mods)
+                + generic.rule_epsg_proxy(prog, mods) + generic.rule_rotation_tolerance(prog, mods), GENERIC_DESC)
 
     wrapped.__name__ = pid
     wrapped.__doc__ = fn.__doc__
